@@ -128,6 +128,45 @@ def micro_programs():
     progs_['transfer'] = transfer
     from vlib import progs as _p
     progs_['threshold_switch'] = _p.threshold_switch_program()[0]
+
+    async def small_field_bits(mpc, pid):
+        # random bits over small prime fields: a party's share of a nonzero value is 0 with probability 1/p, its view must not steer the number of rounds
+        tot = []
+        for q in (7, 11, 13, 5):
+            F = mpc.SecFld(q)
+            bits = []
+            for _ in range(12):
+                bits.extend(mpc.random_bits(F, 1))
+            bits.extend(mpc.random_bits(F, 5))
+            tot.append(int(await mpc.output(mpc.sum(bits))))
+        return tot
+    progs_['small_field_bits'] = small_field_bits
+
+    async def handled_error_then_pending(mpc, pid):
+        # the program handles an exception raised by a call (documented ValueError), then leaves a many-round computation pending when it shuts down
+        secint = mpc.SecInt(32)
+        a = mpc.input(secint(2 + pid), senders=0)
+        try:
+            mpc.indexOf([], a)
+        except ValueError:
+            pass
+        @mpc.coroutine
+        async def chain(x):
+            # a coroutine that opens intermediate values (as quickselect or the random functions do): many rounds, one after the other
+            await mpc.returnType(secint)
+            y = x
+            for _ in range(10):
+                b = await mpc.output(y * x > 0)
+                y = y + b
+            return y
+        y = a
+        for _ in range(4):
+            y = y * a
+            y = mpc.if_else(y < 0, y, y - 1)
+        mpc.peek(y)
+        chain(a)                  # left pending: shutdown() has to wait for all of its rounds
+        return True
+    progs_['handled_error_then_pending'] = handled_error_then_pending
     return progs_
 
 
@@ -162,10 +201,21 @@ def check_world(w, rec, what, case, feats, completed_required=True):
             continue
         elif 'multisets differ' in p:
             mech = 'unmatched'
+        elif 'after the connection was closed' in p:
+            mech = 'sent-after-close'
         else:
             mech = 'leftover'
         n += 1
         rec.violation(f'{what}: {p}', dict(feats, mechanism=mech), case, case=case.get('case'))
+    if done and getattr(w, 'drain_after', False) and not w.crashed:
+        # all parties have shut down: a computation that is still alive now can only post receives nobody will answer and messages nobody can be sent
+        alive = [len(x) for x in w.pending_tasks]
+        errs = [e for e in w.error_summaries() if "'NoneType' object has no attribute 'send'" in e]
+        rec.count('worlds_checked_after_shutdown')
+        if any(alive) and errs:
+            n += 1
+            rec.violation(f'{what}: after every party had shut down, MPyC computations were still running ({alive} tasks per party) and tried to send {len(errs)} message(s) '
+                          f'on connections that no longer exist', dict(feats, mechanism='send-after-shutdown'), case, case=case.get('case'))
     return n, total_frames, done
 
 
@@ -188,7 +238,7 @@ def run(shard, rec):
                 if not rec.wants(case):
                     continue
                 nb = pi % 3 == 1            # a third of the programs run with barriers disabled (--no-barrier)
-                w = runner.run_spec(m, t, no_prss, spec, policy, sseed, world_kwargs={'no_barrier': nb})
+                w = runner.run_spec(m, t, no_prss, spec, policy, sseed, world_kwargs={'no_barrier': nb, 'drain_after': True})
                 rec.count('runs')
                 rec.count('runs_no_barrier', int(nb))
                 feats = {'asymmetric_yield': spec.get('sleepy') is not None, 'deferred_bump': bool(w.deferred_bumps)}
@@ -207,7 +257,7 @@ def run(shard, rec):
                 case = [shard['name'], 'fxp', pi, policy, sseed]
                 if not rec.wants(case):
                     continue
-                w = sim.World(m, t, no_prss, seed=sseed, policy=policy, history='auto').run(fxprogs.build(spec))
+                w = sim.World(m, t, no_prss, seed=sseed, policy=policy, history='auto', drain_after=True).run(fxprogs.build(spec))
                 rec.count('runs')
                 feats = {'asymmetric_yield': spec.get('sleepy') is not None, 'deferred_bump': bool(w.deferred_bumps)}
                 n, frames, done = check_world(w, rec, f'{shard["name"]} fxp program {pi} {[s[0] for s in spec["steps"]]} policy {policy}', {'case': case, 'fxspec': spec, 'policy': policy}, feats)
@@ -224,7 +274,7 @@ def run(shard, rec):
                 case = [shard['name'], name, policy, sseed]
                 if not rec.wants(case):
                     continue
-                w = sim.World(m, t, no_prss, seed=sseed, policy=policy, history='auto').run(prog)
+                w = sim.World(m, t, no_prss, seed=sseed, policy=policy, history='auto', drain_after=True).run(prog)
                 rec.count('runs')
                 feats = {'asymmetric_yield': False, 'deferred_bump': bool(w.deferred_bumps), 'micro': name}
                 n, frames, done = check_world(w, rec, f'{shard["name"]} {name} policy {policy}', {'case': case}, feats)
